@@ -332,10 +332,18 @@ func (p *ProjectRunner) addRunningProcess(process *Process, unlessShuttingDown b
 	if unlessShuttingDown && p.isShuttingDown.Load() {
 		return false
 	}
-	if current, ok := p.runningProcesses[process.getName()]; ok && current != process && !current.isDone() {
-		return false
+	if current, ok := p.runningProcesses[process.getName()]; ok && current != process {
+		if !current.isDone() {
+			return false
+		}
+		// the goroutine of the ended instance may still be on its way out: from now on the
+		// state belongs to the new instance
+		current.superseded.Store(true)
 	}
 	p.runningProcesses[process.getName()] = process
+	// a new instance starts its life Pending, whatever the previous one left behind; set
+	// before anybody can find the instance in the registry
+	process.setState(types.ProcessStatePending)
 	return true
 }
 
@@ -384,7 +392,7 @@ func (p *ProjectRunner) removeRunningProcess(process *Process) {
 
 func (p *ProjectRunner) StartProcess(name string) error {
 	proc := p.getRunningProcess(name)
-	if proc != nil {
+	if proc != nil && !proc.isDone() {
 		log.Error().Msgf("Process %s is already running", name)
 		return fmt.Errorf("process %s is already running", name)
 	}
@@ -783,7 +791,9 @@ func (p *ProjectRunner) renameProcess(name string, newName string) {
 	if process != nil {
 		p.removeRunningProcess(process)
 		process.setName(newName)
-		p.addRunningProcess(process, false)
+		p.runProcMutex.Lock()
+		p.runningProcesses[newName] = process
+		p.runProcMutex.Unlock()
 	}
 	logs := p.removeProcessLogs(name)
 	if logs != nil {
